@@ -859,8 +859,27 @@ func init() {
 			i.abort(abortUnsupported, "Encoder over an unknown writer")
 		}
 		var sb strings.Builder
-		if !canonRender(a[1], &sb) {
-			i.abort(abortUnsupported, "Encoder.Encode of a symbolic value")
+		// (an encoder switched to indented output writes documents - as MarshalIndent, a token;
+		// a plain encoder of a concrete value writes the canonical text - as Marshal, cache keys)
+		if i.env.indented[p] || !canonRender(a[1], &sb) {
+			// a value with symbolic parts: the document is an opaque token (as for Marshal),
+			// followed by the line break Encode adds
+			if wp, isPtr := w.v.(*value); isPtr && wp == nil {
+				i.abort(abortUnsupported, "Encoder.Encode of a symbolic value to standard output")
+			}
+			if of := i.readerFile(w, 0); of != nil && (of.path == "/dev/stdout" || of.path == "/dev/stderr") {
+				i.abort(abortUnsupported, "Encoder.Encode of a symbolic value to standard output")
+			}
+			m := i.prog.LookupMethod(w.t, nil, "Write")
+			if m == nil {
+				i.abort(abortUnsupported, "Encoder: writer without a Write method")
+			}
+			data := append(i.env.marshal("json", a[1]), uint8('\n'))
+			res := i.call(fr, 0, m, []value{w.v, data})
+			if t, ok := res.(tuple); ok && len(t) == 2 {
+				return t[1]
+			}
+			return iface{}
 		}
 		sb.WriteString("\n")
 		if wp, isPtr := w.v.(*value); isPtr && wp == nil {
@@ -888,7 +907,15 @@ func init() {
 	}
 	externals["encoding/json.NewEncoder"] = newDecoder("encoding/json", "Encoder")
 	externals["(*encoding/json.Encoder).Encode"] = encode
-	externals["(*encoding/json.Encoder).SetIndent"] = func(fr *frame, a []value) value { return nil }
+	externals["(*encoding/json.Encoder).SetIndent"] = func(fr *frame, a []value) value {
+		if p, ok := a[0].(*value); ok {
+			if fr.i.env.indented == nil {
+				fr.i.env.indented = map[*value]bool{}
+			}
+			fr.i.env.indented[p] = true
+		}
+		return nil
+	}
 	externals["(*encoding/json.Encoder).SetEscapeHTML"] = func(fr *frame, a []value) value { return nil }
 	externals["gopkg.in/yaml.v3.NewDecoder"] = newDecoder("gopkg.in/yaml.v3", "Decoder")
 	externals["(*gopkg.in/yaml.v3.Decoder).Decode"] = decode("yaml")
